@@ -229,3 +229,24 @@ func Main(m *testing.M) {
 
 // J is shorthand for a JSON object.
 type J = map[string]any
+
+// Bubble runs f in a synctest bubble (through run, which is synctest.Test bound to t by the caller) and reports
+// whether the bubble could not end because goroutines of the code under test remained durably blocked after the
+// scenario's own teardown.  That is recorded as an inconclusive observation of the scenario (its oracles have
+// already run inside f), never silently ignored and never fatal for the other cases of the process.
+func Bubble(run func(), what string) (leaked bool) {
+	defer func() {
+		if p := recover(); p != nil {
+			msg := fmt.Sprint(p)
+			if len(msg) >= 8 && msg[:8] == "deadlock" {
+				leaked = true
+				Inconclusive("bubble could not end, goroutines remained blocked after teardown (" + what + ")")
+				Count("bubbles_that_could_not_end", 1)
+				return
+			}
+			panic(p)
+		}
+	}()
+	run()
+	return false
+}
